@@ -134,13 +134,21 @@ class Scenario:
         n = len(self.snap)
         if n == 0:
             return None
-        return {"first": 0, "last": n - 1, "mid": n // 2}[sel]
+        return {"first": 0, "last": n - 1, "mid": n // 2, "neg": n - 1, "neg2": max(n - 2, 0)}[sel]
+
+    def api_index(self, sel, i):
+        """the index handed to the library: 'neg' / 'neg2' address the last / last-but-one iteration the python way (-1 / -2)"""
+        if sel == "neg":
+            return -1
+        if sel == "neg2" and len(self.snap) >= 2:
+            return -2
+        return i
 
     def op_set_iter(self, sel):
         i = self.pick(sel)
         if i is None:
             return
-        self.s.Set_Iter(i)
+        self.s.Set_Iter(self.api_index(sel, i))
         live = self.live()
         sn = self.snap[i]
         for f in ("u", "v", "a"):
@@ -157,7 +165,7 @@ class Scenario:
         if i is None:
             return
         before = self.live()
-        r = self.s.Get_results(i)
+        r = self.s.Get_results(self.api_index(sel, i))
         after = self.live()
         for f in ("u", "v", "a", "coord"):
             self.expect(f"Get_results({i}) leaves the live {f} unchanged", after[f], before[f], f"Get_results is a pure read ({f})")
@@ -169,7 +177,7 @@ class Scenario:
             return
         before = self.live()
         for name, want in self.snap[i]["results"].items():
-            got = self.s.Result(name, nodeValues=True, iter=i)
+            got = self.s.Result(name, nodeValues=True, iter=self.api_index(sel, i))
             # derived results are recomputed from the geometry (float round-off of B differs after an in-place motion): tolerance
             self.expect(f"Result({name!r}, iter={i}) equals the value obtained when the iteration was saved", got, want, f"Result(name, iter=i) value [{name}]", tol=Fraction(1, 10 ** 7))
         after = self.live()
@@ -260,8 +268,11 @@ class Scenario:
         sym = facade.symbolic if self.V.symbolic else contextlib.nullcontext
         solver = stubs.ideal_linear_solver if self.V.symbolic else contextlib.nullcontext
         with sym(), solver():
+            quiet = "quiet" in ops  # no reads of the history between the operations (the check's own reads must not be what keeps the library right)
             for op in ops:
                 name, arg = (op.split(":") + [None])[:2]
+                if name == "quiet":
+                    continue
                 try:
                     if name == "S":  # macro: solve + save
                         self.op_solve()
@@ -298,9 +309,12 @@ class Scenario:
                 except (FileNotFoundError, KeyError, IndexError, ValueError, AttributeError, TypeError) as e:
                     self.crash = f"{op}: {type(e).__name__}: {e}"[:300]
                     return
-                self.check_history(op)
+                if not quiet:
+                    self.check_history(op)
                 if self.crash:
                     return
+            if quiet:
+                self.check_history("the whole sequence")
 
 
 def job_seq(cfg):
@@ -446,6 +460,14 @@ def configs(tier):
                  ["S", "S", "scheme", "S", "set_iter:mid", "set_iter:first", "folder:B", "S", "result:mid"]]
         for seq in (mixed if sim == "elastic_static" else []):
             seqs.append(["solve"] + seq)
+        # negative indices (-1 = the last saved iteration, whatever was read before), in memory and on disk
+        for seq in (["S", "result:neg", "S", "set_iter:neg", "get:neg", "S", "get:neg2", "set_iter:neg"],
+                    ["folder:A", "S", "result:neg", "S", "set_iter:neg", "get:neg", "S", "get:neg2", "result:neg", "set_iter:neg2"],
+                    ["folder:A", "S", "get:neg", "S", "get:neg", "folder:B", "S", "set_iter:neg", "saveload"]):
+            seqs.append(["solve"] + seq)
+            seqs.append(["quiet", "solve"] + seq)
+        # the same histories without the check's own reads between the operations (every 7th sequence)
+        seqs += [["quiet"] + q for q in seqs[::7] if "quiet" not in q]
         for seq in seqs:
             out.append({"sim": sim, "ops": seq})
     return out
@@ -491,7 +513,14 @@ def job_phasefield(cfg):
         s.Set_Iter(restore, resetAll=reset)
         hist = s._PhaseField__old_psiP_e_pg
         hist = hist[g.elemType] if isinstance(hist, dict) else hist
-        return snaps, {"u": farr(s.displacement), "d": farr(s.damage), "H": farr(hist), "W": farr(np.array([s.Result("Wdef")], dtype=object))}
+        live = {"u": farr(s.displacement), "d": farr(s.damage), "H": farr(hist), "W": farr(np.array([s.Result("Wdef")], dtype=object))}
+        if reset:
+            # what resetAll documents: the history is rebuilt from the restored state - and from nothing else (a simulation that only ever saw that state)
+            s3 = Simulations.PhaseField(mesh, pfm, verbosity=False)
+            s3._Set_solutions(s3.ProblemTypes.elastic, np.array(s.displacement, dtype=object if symbolic else float))
+            s3._Set_solutions(s3.ProblemTypes.damage, np.array(s.damage, dtype=object if symbolic else float))
+            live["P"] = farr(s3._PhaseField__Calc_psiPlus_e_pg(g))
+        return snaps, live
 
     out = {}
 
@@ -512,6 +541,10 @@ def job_phasefield(cfg):
             A = [full[_vid(a)] for a in amps]
             D = [np.array([float(as_sym(x).eval(full)) for x in d]) for d in dmg]
             snaps, live = run(A, D, False, i)
+            if f == "HP":
+                got, want = np.asarray(live["H"], dtype=float), np.asarray(live["P"], dtype=float)
+                err = float(np.abs(got - want).max())
+                return err > 1e-9 * max(1.0, float(np.abs(want).max())), {"amplitudes": A, "restored_iteration": i, "history_after_Set_Iter": got.tolist(), "driving_energy_of_the_restored_state": want.tolist()}
             got, want = np.asarray(live[f], dtype=float), np.asarray(snaps[i][f], dtype=float)
             err = float(np.abs(got - want).max())
             return err > 1e-9 * max(1.0, float(np.abs(want).max())), {"amplitudes": A, "restored_iteration": i, "field": f, "restored": got.tolist(), "saved": want.tolist()}
@@ -522,6 +555,15 @@ def job_phasefield(cfg):
         pcs = list(r.pcs) + list(c.side) + list(c.domain_conds())
         for i in (0, 1):
             snaps, live = r.result[i]
+            if reset:
+                worst = None
+                for a, b in zip(live["H"], live["P"]):
+                    o = prove_abs_le(as_sym(a) - as_sym(b), 0, pcs, f"{key} rebuilt history")
+                    if o.status != "held":
+                        worst = o
+                        break
+                res.record(f"{key} region {r.index}: after Set_Iter({i}, resetAll=True) the history is the driving energy of the restored state alone (nothing of later iterations survives)",
+                           worst or Outcome("held", how="normal-form"), make_replay(i, "HP"), key="phasefield Set_Iter(resetAll=True): history rebuilt from the restored state only")
             for f, name in (("u", "displacement"), ("d", "damage"), ("H", "history of the driving energy"), ("W", "elastic energy Result('Wdef')")):
                 worst = None
                 for a, b in zip(live[f], snaps[i][f]):
